@@ -231,14 +231,27 @@ func cmdTrace(outPath, metaPath string, seed int64, nscen int) int {
 				rec.emit(Event{"ev": "StopRet", "sv": svk(n)})
 			}
 		}
+		stuck := false
 		for _, n := range nodes {
 			select {
 			case <-sv(n).runRet:
 				rec.emit(Event{"ev": "RunRet", "sv": svk(n)})
-			case <-time.After(2 * time.Second):
-				// not a behaviour of the model: every worker is cancelled, Run() must return
+			case <-time.After(time.Second):
+				// not a behaviour of the model: every worker is cancelled, Run() must return.  The recording ends here.
+				w.Sink = func(wk *Worker, e service.VerifEvent) {}
 				rec.emit(Event{"ev": "RunStuck", "sv": svk(n)})
+				stuck = true
 			}
+			if stuck {
+				break
+			}
+		}
+		if stuck {
+			meta.Scenarios++
+			meta.Requests += nreq
+			meta.Bounds = append(meta.Bounds, [2]int{first, len(rec.events)})
+			w.Close()
+			break
 		}
 		time.Sleep(20 * time.Millisecond)
 		// whatever is pending now will be pending for ever: the goroutines that could complete it are gone
